@@ -406,7 +406,15 @@ fn build_predicate(ch: &mut Chooser, cfg: &GraphCfg, programs: &mut Vec<Vec<MOp>
                         has_post = true;
                     }
                     let post = has_post && ch.chance(2, 3);
-                    let count = [i64::MAX, i64::MAX - 1, 1 << 40, 5121, 5120, 4096, -1, i64::MIN][ch.pick(8)];
+                    let mut count = [i64::MAX, i64::MAX - 1, 1 << 40, 5121, 5120, 4096, -1, i64::MIN][ch.pick(8)];
+                    // sometimes the hostile operand is the destination address instead: a few values, written next to the
+                    // top of the address range
+                    let wild_addr = if ch.chance(1, 4) {
+                        count = 1 + ch.pick(3) as i64;
+                        Some([i64::MAX, i64::MAX - 1, i64::MAX - 2, i64::MAX - 5, 1 << 62, -1, i64::MIN][ch.pick(7)])
+                    } else {
+                        None
+                    };
                     let key = pick_key(ch);
                     p.extend([PUSH(0), FREE]);
                     let ext = ch.chance(1, 3);
@@ -415,6 +423,9 @@ fn build_predicate(ch: &mut Chooser, cfg: &GraphCfg, programs: &mut Vec<Vec<MOp>
                     }
                     p.extend(key.iter().map(|w| PUSH(*w)));
                     p.extend([PUSH(key.len() as i64), PUSH(count), PUSH(64), ALOC]);
+                    if let Some(a) = wild_addr {
+                        p.extend([POP, PUSH(a)]);
+                    }
                     p.push(match (post, ext) {
                         (false, false) => KRNG,
                         (false, true) => KREX,
